@@ -427,6 +427,10 @@ def induction_vars(cx, func, loop, allow_conjunct=False):
             nm = t["ref"]["name"]
             counts[nm] = counts.get(nm, 0) + 1
             steps[nm] = None if (conditional or d is None) else d
+            # steps nested in the value that is assigned (total += *p++)
+            if k in ("CompoundAssignOperator", "BinaryOperator"):
+                for c in kids(n)[1:]:
+                    scan(c, conditional)
             return
         for c in kids(n):
             scan(c, conditional)
